@@ -138,6 +138,12 @@ def step (w : W) (ws : List String) : W × String :=
       else
         let r := tickUnreadable w.s
         ({ w with s := r.1 }, tickOut w.s r false)
+    | "epoch~" =>
+      if !w.s.up then (w, "down")
+      else if w.s.cfg.fep then (w, "n/a")
+      else
+        let r := tickL1Unreadable sizeFloat w.s
+        ({ w with s := r.1 }, tickOut w.s r false)
     | "epoch" => go true false
     | "epoch!" => go true true
     | "status" => go false false
